@@ -54,7 +54,11 @@ func (m *Member) apiCall(method, path, body string) {
 // scrape runs the real metric collector in an actor goroutine and journals every const metric.
 func (m *Member) scrape() {
 	w := m.w
+	w.mu.Lock()
+	m.scraping = true
+	w.mu.Unlock()
 	m.call("scrape", func() string {
+		defer func() { w.mu.Lock(); m.scraping = false; w.mu.Unlock() }()
 		col := metric.NewMetricCollector(m.client, dcp.VerifStream(m.d), dcp.VerifVBucketDiscovery(m.d))
 		ch := make(chan prometheus.Metric, 4096)
 		col.Collect(ch)
